@@ -7,7 +7,7 @@ import layoutlib as L
 import vlib
 
 MANIFEST = {
-    "text": "Ordering is a Coq theorem about the model of StorageLayout::add (push + stable sort) for ANY sequence of added entries: the layout is sorted by (slot index, bit offset) and is a permutation of what was added; the sort key inside the model is read from src/layout.rs on every run (changing it breaks the proof). 'Every entry lies inside its slot' rests on the lifting passes only creating sub-words, shifted values and packed spans that fit in 256 bits (stage lemmas of the packing passes) and is evaluated on the implementation's layouts for mask-and-shift code with shifts and mask positions anywhere in 0..2^256, nested packed encodings and mutated real contracts. abi_type_for / the layout loop are modelled (Abi.v): abi_packed_offsets proves that under the span discipline (each span's type no wider than the span) every reported row has offset < 256 and known widths end <= 256, for ALL class tables; unification does not maintain that discipline (C12_nested_refuted: known finding K-nested), so each run dumps the real final classes (tc-classes) and Coq decides discipline / known class / violation on them (c12_class_code) and re-computes the rows with the model. END TO END: the stage models are composed into one executable model of the whole analysis (Pipeline.v: disassembly, VM, all_values, nine passes, registration, rules, unification under the hooked iteration orders, abi_type_for, layout), tied to the real `analyze` by a whole-program differential run in three order modes (stage of first disagreement reported), and pipeline_layout_sorted proves that any layout the composed model returns is sorted by (slot index, bit offset).",
+    "text": "Ordering is a Coq theorem about the model of StorageLayout::add (push + stable sort) for ANY sequence of added entries: the layout is sorted by (slot index, bit offset) and is a permutation of what was added; the sort key inside the model is read from src/layout.rs on every run (changing it breaks the proof). 'Every entry lies inside its slot' rests on the lifting passes only creating sub-words, shifted values and packed spans that fit in 256 bits (stage lemmas of the packing passes) and is evaluated on the implementation's layouts for mask-and-shift code with shifts and mask positions anywhere in 0..2^256, nested packed encodings and mutated real contracts. abi_type_for / the layout loop are modelled (Abi.v) with the guard on nested encodings read from the source (abi_nested_fit): abi_rows_in_slot proves, for ALL class tables and without any hypothesis on nested classes, that every reported row has offset < 256 and known widths end <= 256 as soon as the slot's OWN class starts its spans inside the slot and sized-word spans end inside it (what the lifting passes establish and Packed x Packed re-partitioning preserves); abi_nested_in_word: rows of nested encodings stay inside the word of their enclosing span (struct members). Each run also dumps the real final classes (tc-classes) and Coq decides those hypotheses and re-computes the rows with the model (c12_class_code). With the pinned, unguarded flattening the theorem is refuted (C12_nested_pinned_refuted) and the class of the former finding K-nested is reported as a violation. END TO END: the stage models are composed into one executable model of the whole analysis (Pipeline.v: disassembly, VM, all_values, nine passes, registration, rules, unification under the hooked iteration orders, abi_type_for, layout), tied to the real `analyze` by a whole-program differential run in three order modes (stage of first disagreement reported), and pipeline_layout_sorted proves that any layout the composed model returns is sorted by (slot index, bit offset).",
     "note": "Trusted: Coq kernel; translator (sort key); slice::sort_by_key modelled as a stable insertion sort, not verified; harness.",
     "technique": "Coq proof (insertion-sort invariant, permutation) over a translated sort key; layout predicate evaluated inside Coq on "
                  "the implementation's output",
@@ -19,7 +19,7 @@ CODES = {73: "layout not ordered by (slot index, bit offset)", 74: "an entry sta
 
 def check(ctx):
     vlib.translate(ctx)
-    vlib.prove(ctx, "props/C12.v", ["LayoutCases.vo"])
+    vlib.prove(ctx, "props/C12.v", ["LayoutCases.vo", "TcCases.vo"])
     hb = vlib.harness_bin(ctx)
     rng = ctx.rng
     bw = gen.boundary_words()
@@ -55,7 +55,7 @@ def check(ctx):
         bad = vlib.run_cases(ctx, "layouts", L.HEADER, terms, per_shard=max(1, len(terms) // 32 + 1), fn="c12_code")
         # the same programs through tc-classes: the real final classes, decided inside Coq (discipline, K-nested class, rows)
         import p_tc_stages as TS
-        TS.FILTER = {"classes": {62, 74, 75, 76}}
+        TS.FILTER = {"classes": {62, 74, 75, 76, 77}}
         clines = ["%s %s all sorted" % (c.hex(), TS.CFG) for c in keys]
         couts = TS.run_lines(ctx, hb, ["tc-classes"], clines, "tc-classes:own")
         ch = TS.evaluate(ctx, "classes", "c12_class_code", clines, couts, None, per_shard=max(1, len(clines) // 32 + 1))
@@ -77,8 +77,8 @@ def check(ctx):
     import p_pipeline
     p_pipeline.suite(ctx, translate=False, codes={10}, cov_key="whole_pipeline_model", only=r"^(pipeline_layout_sorted|pipeline_glue|pipeline_rule_order)", part=(2, 3))
     import p_tc_stages as TS
-    TS.suite(ctx, translate=False, parts=("abi", "classes"), codes={"abi": {22}, "classes": {62, 74, 75, 76}}, cov_key="tc_stages",
-             only=r"^(abi_packed_offsets|wd_hyp_sound|C12_nested_refuted)")
+    TS.suite(ctx, translate=False, parts=("abi", "classes"), codes={"abi": {22}, "classes": {62, 74, 75, 76, 77}}, cov_key="tc_stages",
+             only=r"^(abi_rows_in_slot|abi_nested_in_word|origin_in_same_word|bit_width_fits|abi_packed_offsets|wd_hyp_sound|C12_nested_pinned_refuted|C12_nested_repaired)")
     import p_passes_packing
     p_passes_packing.suite(ctx, translate=False, codes={10, 12, 13, 14, 17}, cov_key="lifting_passes_packing", only=r"^(subword_in_slot|shifted_in_slot|packed_spans|packing3_in_slot|get_region_(sound|no_panic)|which_power_of_2_bound)")
     return vlib.finish(ctx, rule="distinct programs; non-trivial = the analysis returned a layout with at least two entries",
